@@ -219,7 +219,7 @@ def lib_of_ast(e, tags, val):
         start, stop, step = (int(val(v)) for v in e[2:5])
         return ColumnContainer.range_literal(range(start, stop, step)).contains(lib_of_ast(e[1], tags, val))
     if h == "inseq":
-        return ColumnContainer.sequence(tuple(lib_of_ast(i, tags, val) for i in e[2])).contains(
+        return ColumnContainer.sequence([lib_of_ast(i, tags, val) for i in e[2]]).contains(
             lib_of_ast(e[1], tags, val)
         )
     raise TypeError(f"bad expression {e!r}")
